@@ -349,7 +349,7 @@ def drive(mod, cid, tier, seed, a, workdir, t0):
 
     agg = dict(counters=counters, sets={k: len(v) for k, v in sets.items()}, setvals=sets, n=len(specs), held=nheld)
     fin = {}
-    if hasattr(mod, "finish") and not pre:
+    if hasattr(mod, "finish") and not pre and not replay_mode:
         fin = mod.finish(agg, tier) or {}
 
     # replay directories for violations
@@ -449,6 +449,9 @@ def drive(mod, cid, tier, seed, a, workdir, t0):
         else:
             print("VIOLATION property=%s replay=%s" % (cid, replays[0] if replays else "none"))
         return 1
+    if replay_mode and not pre and len(inconcl) < len(specs):
+        print("REPLAY property=%s case not reproduced (0/%d runs violated)" % (cid, len(specs)))
+        return 0
     if inconclusive_reason:
         print("INCONCLUSIVE property=%s reason=%s" % (cid, inconclusive_reason))
         return 2
